@@ -62,6 +62,16 @@ CLAIMS = {
   text="Decides: secp256k1_from_bytes / ed25519_from_bytes take &mut [u8], apply exactly one library secret-key parser (k256 SigningKey::from_slice, ed25519 SigningKey::try_from) to the whole parameter, return exactly that key in the matching CombinedKey variant, and on every path to Ok call Zeroize::zeroize on the whole parameter after the parser call (dominance order); encode() returns to_bytes() of the variant's own key and public() the variant's own public key. Not decided: which 32-byte strings the libraries accept (group-order boundary) and the public-key derivation arithmetic.",
   note="Trusts: MIR fidelity; zeroize overwrites with zeros; k256 / ed25519-dalek parsers. Only configurations with both k256 and ed25519 compile CombinedKey (at least one must be analysed).",
   design="3/C17"),
+ "C08": dict(
+  technique="table-driven MIR rules against a T-API oracle + validator dispatch folding + return-value origin trees + error-cause control dependence",
+  text="Decides the structural map-model obligations for every public mutator and builder method: each typed setter, builder method and socket setter writes exactly its wire key(s) with the canonical RLP encoding of its own argument and the caller's signer; each remover names exactly its keys and inserts nothing; set_socket's (address family, is_tcp) table is {ip,tcp}/{ip,udp}/{ip6,tcp6}/{ip6,udp6} and its two callers pass the right flag; insert_raw_rlp returns the value displaced by its own content.insert(key, value), remove_insert the vectors of displaced values in call order, the typed setters the decoded previous value; the reserved-key validator, folded per key, accepts exactly one complete item of the class the decoder reads (so set_public_key with the signer's own key succeeds) with no additional rejection; set_public_key stores encode() under enr_key(); build() hands out a clone of the builder's pairs plus id and the signer's key; every hand-written Error variant is constructed only under its cause. Not decided: equality of whole maps along concrete histories.",
+  note="Trusts: MIR fidelity; std BTreeMap semantics; the T-API table (transcribed from the statement, EIP-778, EIP-7636).",
+  design="3/C08"),
+ "C14": dict(
+  technique="table-driven MIR rules against T-API/T-KEYS: reader/writer class agreement, guard-set analysis of length tests, origin trees of socket getters",
+  text="Decides: every typed reader reads exactly its wire key with exactly its class and answers None otherwise (ports: get_decodable::<u16>(key).and_then(Result::ok); ip4/ip6: byte string whose length guard admits exactly {4}/{16}, copied whole; id: byte string; client_info: list of 2 or 3 strings mapped in order); get_decodable/get_raw_rlp are T::decode of content.get(key); every typed writer stores its argument under the same key with the same class through the RLP encoder (reader class = writer class per key); Builder::client_info / set_client_info store [name, version] exactly when build is None and [name, version, build] for every Some; socket getters are Some(new(ipX()?, portX()?)) and None only when a part is None; reachability flags are the disjunction of the family's two socket getters; set_socket picks the family by the socket's own address. Not decided: per-value exhaustiveness over all ports/addresses (alloy-rlp's codec).",
+  note="Trusts: MIR fidelity; alloy-rlp codecs (class table); INV-RLP from C05 for exact consumption.",
+  design="3/C14"),
 }
 
 checks = []
